@@ -297,12 +297,23 @@ def generate(run, rng):
 
     kindp = cfg.get("interval_share", 0.6)
 
+    import math as _m
+
     def mk_tier(name=None):
         st = g.ctor_interval(w, name) if rng.random() < kindp else g.ctor_point(w, name)
         if uni:
             st["a"][2], st["a"][3] = 0.0, top
         elif rng.random() < 0.3:
             st["a"][2], st["a"][3] = 0.0, rng.choice([top, top / 2, top + 2])
+        if rng.random() < 0.06:
+            # a span that differs from a live textgrid's span by one ulp (0.1+0.2 vs 0.3):
+            # comparisons are exact, so such a tier does widen the textgrid / is rejected in 'error' mode
+            spans = [(t.minTimestamp, t.maxTimestamp) for t in (w.heap[x] for x in w.live(Textgrid))
+                     if t.minTimestamp is not None and t.maxTimestamp is not None]
+            if spans:
+                lo, hi = rng.choice(spans)
+                st["a"][2] = float(lo) if rng.random() < 0.7 else max(0.0, _m.nextafter(float(lo), -_m.inf))
+                st["a"][3] = _m.nextafter(float(hi), rng.choice([_m.inf, -_m.inf]))
         o = run.do(st)
         return st["out"] if (o is not None and o.ok) else None
 
@@ -355,6 +366,8 @@ def generate(run, rng):
             idx = None if rng.random() < 0.4 else rng.randrange(-2, n + 3)
             if idx is not None and rng.random() < 0.08:
                 idx = rng.choice([-100, 1000, True, False])
+            if fault and tag is None and rng.random() < 0.12:
+                idx, tag = rng.choice([2.0, "1", 0.5]), "F-index"  # list.insert rejects these
             mode = g.pick(REPORT)
             if fault and tag is None:
                 if rng.random() < 0.4:
